@@ -59,3 +59,23 @@ func (d *DFA) VerifConfig() Config { return d.config }
 
 // VerifNFAStates returns the number of states of the underlying NFA.
 func (d *DFA) VerifNFAStates() int { return d.nfa.States() }
+
+// VerifAccelOverDead returns the number of cached states that are marked accelerable
+// (the search jumps to the next exit byte with memchr) although at least one of their
+// cached transitions leads to the dead state.
+func (c *DFACache) VerifAccelOverDead() int {
+	n := 0
+	for _, st := range c.states {
+		if st == nil || !st.IsAccelerable() {
+			continue
+		}
+		off := st.ID().Offset()
+		for k := 0; k < c.stride && off+k < len(c.flatTrans); k++ {
+			if c.flatTrans[off+k] == DeadState {
+				n++
+				break
+			}
+		}
+	}
+	return n
+}
